@@ -44,6 +44,9 @@ class Tracker(Monitor):
         w.on_hook('stopper_stop_process',
                   lambda inst, process, *a, **k: self.bump_stop(inst, process.application_name, 'process'))
         self.epoch = {}            # (nick, inc, app) -> plan counter (entry points of the Starter)
+        self.queued_epochs = set()
+        self.received = {}         # (receiver nick, inc, source nick, namespec) -> (time, state) of the last event
+        w.on_hook('fsm_process_event', self.on_process_event_received)
         w.on_hook('starter_start_applications', lambda inst, *a, **k: self.bump(inst, None))
         w.on_hook('starter_start_application',
                   lambda inst, strategy, application, *a, **k: self.bump(inst, application.application_name))
@@ -100,11 +103,25 @@ class Tracker(Monitor):
     def bump(self, inst, app_name):
         """ A new start plan begins for the application(s) at this instance. """
         apps = [app_name] if app_name else list(self.run.model)
+        try:
+            busy = set(inst.supvisors.starter.get_application_job_names())
+        except Exception:
+            busy = set()
         for app in apps:
             key = (inst.nick, inst.inc, app)
             self.epoch[key] = self.epoch.get(key, 0) + 1
+            # a plan requested while another one of the same application is in progress at that instance is queued
+            # behind it (or merged into it): the requests that follow cannot be attributed to one of them
+            if app in busy:
+                self.queued_epochs.add((inst.nick, inst.inc, app, self.epoch[key]))
+                self.count('start_plans_queued_behind_another')
         self.last_plan[(inst.nick, inst.inc, 'start')] = self.w.now
         self.count('start_plans')
+
+    def on_process_event_received(self, inst, status, event):
+        namespec = f"{event['group']}:{event['name']}"
+        self.received[(inst.nick, inst.inc, self.w.by_identifier.get(status.identifier), namespec)] = \
+            (self.w.now, event['state'])
 
     def epoch_of(self, inst_nick, inc, app):
         return self.epoch.get((inst_nick, inc, app), 0)
@@ -294,7 +311,14 @@ class StartSequenceMonitor(Monitor):
                         continue  # started there by somebody else: nothing left to wait for
                     if 0 < oseq < seq:
                         self.count('nontrivial_order_checks')
-                        self.violate('C03/process-order', f"{req['sender']} requested {namespec} (start_sequence {seq})"
+                        mech = ''
+                        got = tr.received.get((req['sender'], req['inc'], other['target_nick'], other['namespec']))
+                        if other['delivered'] is None and got and got[0] >= other['t'] and \
+                                got[1] in (0, 40, 100, 200, 1000):
+                            # the requester has judged its request (failed) on an event of that process which was
+                            # produced before the request was even delivered (an earlier start / stop cycle)
+                            mech = ':request-judged-on-an-event-older-than-its-delivery'
+                        self.violate('C03/process-order' + mech, f"{req['sender']} requested {namespec} (start_sequence {seq})"
                                      f" at vt={vt(run.world)} while its request for {other['namespec']} (start_sequence"
                                      f" {oseq}) on {other['target_nick']} is not finished: true state there "
                                      f"{tr.truth.get((other['target_nick'], other['namespec']))}, delivered="
@@ -347,7 +371,9 @@ class StartSequenceMonitor(Monitor):
         if failure:
             fns, strategy, t, step = failure
             self.count('failure_strategy_checks')
-            if strategy in ('ABORT', 'STOP') and step != req['step']:
+            if (req['sender'], req['inc'], app_name, req['epoch']) in tr.queued_epochs:
+                self.count('failure_strategy_checks_skipped_queued_plan')
+            elif strategy in ('ABORT', 'STOP') and step != req['step']:
                 self.violate(f'C03/request-after-{strategy}', f"{req['sender']} requested {namespec} at "
                              f"vt={vt(run.world)} after the required {fns} failed to start (strategy {strategy}) in the "
                              f"same start plan", case=run.describe())
@@ -452,7 +478,13 @@ class EligibilityMonitor(Monitor):
         self.count('requests_checked')
         where = f"{req['sender']} -> {req['target_nick']} for {namespec} at vt={vt(w)}"
         if states.get(target) != 'RUNNING':
-            self.violate('C04/target-not-running', f'start request {where}: the requester sees the target '
+            mech = ''
+            app = run.model.get(namespec.split(':')[0], {})
+            if states.get(target) == 'FAILED' and app.get('distribution', 'ALL_INSTANCES') != 'ALL_INSTANCES':
+                # the instance chosen beforehand for a non-distributed application has just been declared FAILED and
+                # is not invalidated yet (next periodic task): the request is sent to it all the same
+                mech = ':failed-target-chosen-beforehand-for-a-non-distributed-application'
+            self.violate('C04/target-not-running' + mech, f'start request {where}: the requester sees the target '
                          f'{states.get(target)}', case=run.describe())
         known = self.knows(target, namespec)
         if known != 'ok':
